@@ -31,7 +31,8 @@ from .common import Result
 PROP = "C07"
 RULE = ("images 2-D (<=40 px/axis) and 3-D (<=16 px/axis) of integer pixels in uint8/uint16/int64/"
         "float64: tie-heavy 2-6 level palettes, blobs on noise, brightness ramps towards borders "
-        "(drive the mask into the clip), sparse spikes, plateaus, flat; independent raw image; "
+        "(drive the mask into the clip), sparse spikes, plateaus, flat, and a tie stream (every 5th "
+        "case: radii <= 2, 0/v images, dyadic threshold); independent raw image; "
         "per-axis radii 1-5 (3-D mostly 1-3) isotropic and not; max_iterations in {1,2,3,10} (0 "
         "rarely); shift_thresh 0.6 mostly, dyadic 0.25/0.5/0.75/1.0 otherwise (exact ties "
         "decidable in float64); characterize on/off; 1-6 start pixels anywhere with the mask box "
@@ -146,9 +147,12 @@ def _texture(rng, shape, kind, vmax):
 
 
 def gen_case(rng, i, thorough=False):
-    nd = 3 if rng.random() < 0.3 else 2
+    tie = i % 5 == 4      # tie stream: small masks, 0/v images, dyadic threshold
+    nd = 3 if rng.random() < (0.5 if tie else 0.3) else 2
     iso = rng.random() < 0.5
     rmax = 5 if nd == 2 else rng.choice([2, 3, 3, 5] if thorough else [2, 3, 3, 4])
+    if tie:
+        rmax = 2
     if iso:
         radius = [rng.randint(1, rmax)] * nd
     else:
@@ -167,7 +171,12 @@ def gen_case(rng, i, thorough=False):
         vmax = rng.choice([1, 2, 5, 10])
     kind = rng.choice(["palette", "palette", "palette", "blobs", "blobs", "ramp", "ramp",
                        "spikes", "plateau", "flat"])
-    img = _texture(rng, shape, kind, vmax)
+    if tie:
+        kind, v = "tie", rng.randint(1, vmax)
+        dens = rng.choice([0.15, 0.3, 0.5])
+        img = [v if rng.random() < dens else 0 for _ in range(int(np.prod(shape)))]
+    else:
+        img = _texture(rng, shape, kind, vmax)
     rawkind = rng.choice(["palette", "blobs", "spikes"])
     raw = _texture(rng, shape, rawkind, vmax)
     if rng.random() < 0.05:
@@ -175,6 +184,8 @@ def gen_case(rng, i, thorough=False):
     thr = rng.choice(["0.6"] * 6 + ["0.5", "0.5", "0.75", "0.25", "1.0"])
     if kind in ("palette", "spikes", "plateau") and rng.random() < 0.35:
         thr = rng.choice(["0.5", "0.5", "0.25", "0.75"])   # exact ties are frequent and decidable
+    if tie:
+        thr = rng.choice(["0.5", "0.5", "0.25", "0.75", "1.0"])
     max_iter = rng.choice([1, 2, 3, 10, 10]) if rng.random() > 0.03 else 0
     arr = np.array(img, dtype=np.int64).reshape(shape)
     mask = exact_mask(radius)
